@@ -16,8 +16,8 @@ func init() {
 			{Name: "H_C18_wide", Tier: "quick", What: "Norm / l2sq / l2 / cosine definitions, batch = element-wise, Preprocess agreement at d in {4,5,7,8,9,15,16,17,24,32,33,64}; GRID domain (all partial sums exact, so order-independent), bit-exact", Covers: []string{"ran"}},
 			{Name: "H_C18_wide_onehot", Tier: "quick", What: "one non-zero component at any position: Norm=|x|, l2sq=(x-y)^2, cosine=1-clamp(xy), unit vector +-1 there; d in {8,9,16,33}; GRID domain (T2)", Covers: []string{"ran"}},
 			{Name: "H_C18_wide_onehot_t", Tier: "thorough", What: "the same at d in {4,5,7,8,9,15,16,17,24,32,33,64}, every position up to d=17", Covers: []string{"ran"}},
-			{Name: "H_C18_grid_unit", Tier: "quick", What: "unit norm (1e-5) after cosine PreprocessInPlace; d<=2; GRID domain k/4, |k|<=32", Covers: []string{"zero", "nonzero"}},
-			{Name: "H_C18_grid_cos_self", Tier: "quick", What: "cosine self-distance in [0,1e-5]; d<=2; GRID domain", Covers: []string{"ran"}},
+			{Name: "H_C18_grid_unit", Tier: "quick", What: "unit norm (1e-5) after cosine PreprocessInPlace; d<=2; GRID domain k/4, |k|<=32", Covers: []string{"zero", "nonzero"}, Opts: interp.JobOpts{T2Timeout: 400}},
+			{Name: "H_C18_grid_cos_self", Tier: "quick", What: "cosine self-distance in [0,1e-5]; d<=2; GRID domain", Covers: []string{"ran"}, Opts: interp.JobOpts{T2Timeout: 400}},
 			{Name: "H_C18_grid_triangle", Tier: "thorough", What: "l2 triangle inequality with 1e-5 relative slack; d=1; GRID domain", Covers: []string{"ran"}, Opts: interp.JobOpts{T2Timeout: 600}},
 		},
 		Lemmas: []string{"L_sq_abs_f32", "L_abs_sub_f32"},
